@@ -37,56 +37,130 @@ def getCnt (j : Json) : Except String Cnt := do
   | "nan" => pure .nan
   | _ => throw s!"bad count {t}"
 
-def getSrc (j : Json) : Except String (Src Int) := do
+/-- element type of a history: how items travel, and the element functions a history may
+    use (the harness holds the same tables in Python) -/
+structure Codec (α : Type) where
+  get : Json → Except String α
+  put : α → Json
+  mapT : Nat → α → α
+  predT : Nat → α → Bool
+
+/-- plain integers -/
+def intCodec : Codec Int := ⟨getInt, Json.int, mapTable, predTable⟩
+
+/-- tagged items `[value, tag]`: the functions act on the value, the tag (which Python object
+    represents the value: int / float / Fraction / unhashable / ...) travels with the item -/
+def tagCodec : Codec (Int × Nat) where
+  get j := do
+    match ← getArr j with
+    | [v, t] => pure (← getInt v, ← getNat t)
+    | _ => throw "bad tagged item"
+  put x := Json.arr [Json.int x.1, natToJson x.2]
+  mapT k x := (mapTable k x.1, x.2)
+  predT k x := predTable k x.1
+
+section
+variable {α : Type} (c : Codec α)
+
+def getSrc (j : Json) : Except String (Src α) := do
   let k ← getStr (← field j "k")
   match k with
-  | "list" => pure (.list (← getList getInt (← field j "xs")))
-  | "cyc" => pure (.cyc (← getList getInt (← field j "xs")))
-  | "chain" => pure (.chain (← getList (getList getInt) (← field j "xss")))
-  | "const" => pure (.const (← getInt (← field j "v")))
+  | "list" => pure (.list (← getList c.get (← field j "xs")))
+  | "cyc" => pure (.cyc (← getList c.get (← field j "xs")))
+  | "chain" => pure (.chain (← getList (getList c.get) (← field j "xss")))
+  | "const" => pure (.const (← c.get (← field j "v")))
   | "obj" => pure (.obj (← getNat (← field j "j")))
+  | "mixed" => pure (.mixed (← getList c.get (← field j "pre")) (← getNat (← field j "j"))
+      (← getList c.get (← field j "post")))
   | _ => throw s!"bad source {k}"
 
-def getOp (j : Json) : Except String (Op Int) := do
+def getOp (j : Json) : Except String (Op α) := do
   let o ← getStr (← field j "op")
   let i : Except String Nat := do getNat (← field j "i")
   match o with
-  | "new" => pure (.new (← getSrc (← field j "src")))
+  | "new" => pure (.new (← getSrc c (← field j "src")))
   | "take" => pure (.take (← i) (← getCnt (← field j "n")))
   | "peek" => pure (.peek (← i) (← getCnt (← field j "n")))
   | "skip" => pure (.skip (← i) (← getCnt (← field j "n")))
   | "limit" => pure (.limit (← i) (← getCnt (← field j "n")))
-  | "append" => pure (.append (← i) (← getSrc (← field j "src")))
-  | "map" => pure (.map (← i) (mapTable (← getNat (← field j "f"))))
-  | "filter" => pure (.filter (← i) (predTable (← getNat (← field j "p"))))
+  | "append" => pure (.append (← i) (← getSrc c (← field j "src")))
+  | "map" => pure (.map (← i) (c.mapT (← getNat (← field j "f"))))
+  | "filter" => pure (.filter (← i) (c.predT (← getNat (← field j "p"))))
   | "copy" => pure (.copy (← i))
   | "next" => pure (.next (← i))
   | "drain" => pure (.drain (← i))
-  | "thub" => pure (.thub (← getSrc (← field j "src")) (← getNat (← field j "n")))
+  | "thub" => pure (.thub (← getSrc c (← field j "src")) (← getNat (← field j "n")))
   | "tee" => pure (.tee (← i) (← getNat (← field j "n")))
   | _ => throw s!"bad op {o}"
 
-def obsJson : Option (Obs Int) → Json
+def getMut (j : Json) : Except String (Mut α) := do
+  let k ← getStr (← field j "k")
+  match k with
+  | "clear" => pure .clear
+  | "reverse" => pure .reverse
+  | "pop0" => pure .pop0
+  | "poplast" => pure .popLast
+  | "extend" => pure (.extend (← getList c.get (← field j "xs")))
+  | "fill" => pure (.fill (← c.get (← field j "v")))
+  | _ => throw s!"bad mutation {k}"
+
+/-- a step of a `hist` history: the operations of `history`, plus `lit`, `mut` and sources
+    `{"k":"ref","j":j}` (a list of the caller) for `new` / `append` / `thub` -/
+def getHOp (j : Json) : Except String (HOp α) := do
+  let o ← getStr (← field j "op")
+  let refOf : Except String (Option Nat) := do
+    match optField j "src" with
+    | none => pure none
+    | some s =>
+      if (← getStr (← field s "k")) == "ref" then pure (some (← getNat (← field s "j"))) else pure none
+  match o with
+  | "lit" => pure (.lit (← getList c.get (← field j "xs")))
+  | "mut" => pure (.edit (← getNat (← field j "j")) (← getMut c (← field j "m")))
+  | _ =>
+    match ← refOf with
+    | none => pure (.op (← getOp c j))
+    | some r =>
+      match o with
+      | "new" => pure (.newRef r)
+      | "append" => pure (.appendRef (← getNat (← field j "i")) r)
+      | "thub" => pure (.thubRef r (← getNat (← field j "n")))
+      | _ => throw s!"bad ref op {o}"
+
+def obsJson : Option (Obs α) → Json
   | none => Json.mkObj [("hang", Json.bool true)]
   | some .unit => Json.mkObj [("self", Json.bool true)]
-  | some (.item v) => Json.mkObj [("x", Json.int v)]
-  | some (.items vs) => Json.mkObj [("v", ints vs)]
+  | some (.item v) => Json.mkObj [("x", c.put v)]
+  | some (.items vs) => Json.mkObj [("v", arr c.put vs)]
   | some (.new k) => Json.mkObj [("new", nats [k])]
   | some (.news ks) => Json.mkObj [("new", nats ks)]
-  | some (.const v) => Json.mkObj [("const", Json.int v)]
+  | some (.const v) => Json.mkObj [("const", c.put v)]
   | some (.err e) => Json.mkObj [("err", Json.str e)]
+
+end
 
 /-- fuel of the model run: bounds the nesting depth of iterators plus the longest run of
     items a `filter` rejects / a `list()` collects in one call -/
 def fuel : Nat := 20000
 
+def histOf {α : Type} (c : Codec α) (fl : Nat) (j : Json) : Except String Json := do
+  let hops ← getList (getHOp c) (← field j "ops")
+  let m := hrun fl (HSt.empty : HSt α) hops
+  let s := hspecRun (⟨[], []⟩ : HSp α) hops
+  pure <| Json.mkObj [("model", arr (obsJson c) m.1), ("spec", arr (obsJson c) s.1),
+    ("model_lists", arr (arr c.put) m.2), ("spec_lists", arr (arr c.put) s.2)]
+
 def handle (entry : String) (j : Json) : Except String Json := do
   match entry with
   | "history" =>
-    let ops ← getList getOp (← field j "ops")
+    let ops ← getList (getOp intCodec) (← field j "ops")
     let m := run fuel (St.empty : St Int) ops
     let s := specRun ([] : SPool Int) ops
-    pure <| Json.mkObj [("model", arr obsJson m), ("spec", arr obsJson s)]
+    pure <| Json.mkObj [("model", arr (obsJson intCodec) m), ("spec", arr (obsJson intCodec) s)]
+  | "hist" =>
+    -- histories with the caller's containers; items plain ints or tagged `[value, tag]`
+    let tagged := match optField j "tagged" with | some (Json.bool b) => b | _ => false
+    let fl := match optField j "fuel" with | some (Json.int n) => n.toNat | _ => fuel
+    if tagged then histOf tagCodec fl j else histOf intCodec fl j
   | "count" =>
     let c ← getCnt (← field j "n")
     let tm : Json := match takeMode c with
